@@ -154,6 +154,23 @@ chk('C18', 'model_checking',
     'Hier.tla, Ddmin.tla, TraceHier.tla, TraceDdmin.tla',
     'DESIGN.md section 5, C18')
 
+chk('C15', 'model_checking',
+    'The contract of one proposal is stated in TLA+ (Conform.tla): '
+    'LexText(rendered text) = Tokens(result) and ReadText has its shape (every '
+    'leaf is one token; the tree in memory is what a reader parses from the '
+    'file), declared symbols are not declared in the input and precede their '
+    'first use. All 53 mutators x all BFS nodes x all proposals are enumerated '
+    'with the real code on well-sorted seed scripts over every theory and on '
+    'their partially reduced forms; identity keys, apply and render are '
+    'checked while recording and TLC judges every suspect pair plus a sample '
+    'of the others.',
+    'Inputs are the hand-kept seeds (lib/seeds.py) and forms derived from '
+    'them, not all well-sorted scripts; the pre-screen uses the reference '
+    'reader validated against LexerOps.tla by C08; a raising mutator costs '
+    'only its candidates.',
+    'TLC validation (Conform.tla) of recorded proposals of the real mutators',
+    'Conform.tla, LexerOps.tla, SExpr.tla', 'DESIGN.md section 5, C15')
+
 NOT_YET = 'check not built yet (work in progress; see DESIGN.md section 10)'
 NOT_APPLICABLE = {}
 
